@@ -183,7 +183,10 @@ struct Parser {
       string line = buf.substr(0, pos); buf.erase(0, pos + 1);
       if (line.empty()) { if (block.empty()) logEv(logId, conn, "blank"); else emitBlock(); continue; }
       int tag; long val;
-      if (listening && block.empty() && updLine(line, &tag, &val)) { logEv(logId, conn, "push", "", tag, "[" + std::to_string(val) + "]"); continue; }
+      if (listening && block.empty() && line.find(" = ") != string::npos) {  // update line; tag 0: not a message of the test world
+        if (!updLine(line, &tag, &val)) { tag = 0; val = 0; }
+        logEv(logId, conn, "push", "", tag, "[" + std::to_string(val) + "]"); continue;
+      }
       block.push_back(line);
     }
   }
@@ -215,7 +218,7 @@ struct Parser {
 
 // ---------------------------------------------------------------------------------------------------------------------
 // client programs
-enum OpK { SEND, AWAIT, TICK, QUITEOF, CLOSE, STALL, RELEASE, PAUSE, WAITPUSH };
+enum OpK { SEND, AWAIT, TICK, QUITEOF, CLOSE, STALL, RELEASE, PAUSE, WAITPUSH, SHUTWR };
 struct Inv { string kind; int tag; };
 struct Op { OpK k; vector<string> chunks; vector<Inv> invs; int arg; string text; };
 struct ClientCtx {
@@ -276,11 +279,15 @@ static void* clientThread(void* a) {
         // arg 1 (after input that the daemon is known to mangle): the quit itself may have been swallowed - say it again
         // after a quiet period instead of running into the watchdog (each repetition is a logged request of its own)
         for (int rep = 0; op.arg == 1 && rep < 6 && !c->ps.sawEof; rep++) {
-          if (pump(c, 0, true, true, -1, 40 << rep)) break;
+          if (pump(c, 0, true, true, -1, 8 << rep)) break;
           logEv(c->id, c->id, "inv", "quit", 0);
           send(c->fd, "quit\n", 5, MSG_NOSIGNAL);
         }
         if (!pump(c, 0, true, true)) { logEv(c->id, c->id, "hang", "eof"); c->hang = true; c->dead = true; g_hangs++; }
+        break;
+      case SHUTWR:   // like `echo cmd | nc -N`: no more input, but the answers are still wanted
+        logEv(c->id, c->id, "shut");
+        shutdown(c->fd, SHUT_WR);
         break;
       case CLOSE:
         logEv(c->id, c->id, "close");
@@ -362,6 +369,14 @@ static History genHistory(const string& fam, vf::Rng* rng) {
         c.prog.push_back(simple(AWAIT, 0, "await"));
       }
       endProgram(&c, rng, false);
+    } else if (fam == "halfclose") {  // the pattern of contrib/scripts: write the command, close the sending side, read to the end
+      int n = static_cast<int>(rng->below(3));
+      for (int i = 0; i < n; i++) { randomReq(k, rng, &kind, &tag); c.prog.push_back(sendReq(kind, tag, rng, 1 + static_cast<int>(rng->below(2)))); c.prog.push_back(simple(AWAIT, 0, "await")); }
+      randomReq(k, rng, &kind, &tag);
+      c.prog.push_back(sendReq(kind, tag, rng, 1 + static_cast<int>(rng->below(2))));
+      if (rng->chance(1, 3)) c.prog.push_back(simple(PAUSE, static_cast<int>(rng->below(2000))));
+      c.prog.push_back(simple(SHUTWR, 0, "shutdown(SHUT_WR)"));
+      c.prog.push_back(simple(QUITEOF, 0, "read until eof"));
     } else if (fam == "pipe") {  // several lines sent without waiting for the responses (separate writes; TCP may merge them)
       int n = 2 + static_cast<int>(rng->below(2));
       for (int i = 0; i < n; i++) { randomReq(k, rng, &kind, &tag); if (kind == "empty") kind = "bogus"; c.prog.push_back(sendReq(kind, tag ? tag : k, rng)); }
@@ -410,7 +425,8 @@ static History genHistory(const string& fam, vf::Rng* rng) {
         g += "\n";
         o.chunks = chunked(g, g.size() > 256 ? 3 : 1, rng); o.invs.push_back(Inv{"junk", 0});
         c.prog.push_back(o);
-        // no await here: if the junk wedged the line parser the following request shows it without a watchdog
+        // (NUL: no await, the line is known to stay unanswered; the following request shows what became of it)
+        if (fam == "junk") c.prog.push_back(simple(AWAIT, 0, "await"));
         randomReq(k, rng, &kind, &tag); if (kind == "empty") kind = "bogus";
         c.prog.push_back(sendReq(kind, tag ? tag : k, rng));
         if (fam == "junk") c.prog.push_back(simple(AWAIT, 0, "await"));
@@ -448,13 +464,17 @@ static History genHistory(const string& fam, vf::Rng* rng) {
         for (int i = 0; i < n; i++) { randomReq(k, rng, &kind, &tag); c.prog.push_back(sendReq(kind, tag, rng)); c.prog.push_back(simple(AWAIT, 0, "await")); }
         endProgram(&c, rng, false);
       }
-    } else if (fam == "listen") {
+    } else if (fam == "listen" || fam == "listenwait") {
       // connection 1 listens; connection 2 changes values and advances the (virtual) time; see P for what is demanded
       if (k == 1) {
         c.prog.push_back(sendReq("listen", 0, rng)); c.prog.push_back(simple(AWAIT, 0, "await"));
         c.prog.push_back(simple(PAUSE, 2000 + static_cast<int>(rng->below(3000))));
-        bool wait = rng->chance(1, 6);
-        if (wait) c.prog.push_back(simple(WAITPUSH, 0, "wait for an update block (connection polls every 2 s)"));
+        bool wait = fam == "listenwait";
+        if (wait) {  // a change of its own followed by a clock step: the 2 s poll of the connection must announce it unasked
+          c.prog.push_back(sendReq("fread", 1 + static_cast<int>(rng->below(2)), rng)); c.prog.push_back(simple(AWAIT, 0, "await"));
+          c.prog.push_back(simple(TICK, 1, "advance time by 1 s"));
+          c.prog.push_back(simple(WAITPUSH, 0, "wait for an unsolicited update line (the connection polls every 2 s)"));
+        }
         int n = 1 + static_cast<int>(rng->below(3));
         for (int i = 0; i < n; i++) {
           unsigned r = rng->below(4);
@@ -556,6 +576,64 @@ static bool runHistory(Daemon* D, History* h, int hno, FILE* f, long* totalEv) {
   return !hang;
 }
 
+// ---------------------------------------------------------------------------------------------------------------------
+// shutdown while clients are active (the order of main.cpp: MainLoop::shutdown + join, then delete Network): does the
+// destructor of Network come back?  TLC finds a hang in the model (MC_NetHandoff_obs_down.cfg): a connection that pushes its
+// request after the destructor drained the queue waits for ever in waitResponse, and the destructor waits for ever in join.
+static std::atomic<int> g_downStop;
+struct DownClient { uint16_t port; unsigned seed; long requests; };
+static void* downClient(void* a) {
+  DownClient* dc = static_cast<DownClient*>(a);
+  vf::Rng rng(dc->seed);
+  int fd = connectTo(dc->port);
+  if (fd < 0) return nullptr;
+  char data[512];
+  while (!g_downStop) {
+    if (send(fd, "bogus\n", 6, MSG_NOSIGNAL) < 0) break;
+    dc->requests++;
+    string buf; bool eof = false;
+    for (int i = 0; i < 400 && !g_downStop; i++) {   // (a stuck connection never answers: leave when the round is over)
+      struct pollfd p; p.fd = fd; p.events = POLLIN; p.revents = 0;
+      if (poll(&p, 1, 10) <= 0) continue;
+      ssize_t n = recv(fd, data, sizeof data, 0);
+      if (n <= 0) { eof = true; break; }
+      buf.append(data, static_cast<size_t>(n));
+      if (buf.size() >= 2 && buf.compare(buf.size() - 2, 2, "\n\n") == 0) break;
+    }
+    if (eof) break;
+    usleep(static_cast<useconds_t>(rng.below(300000)));   // think time: the connection is idle when the queue is drained
+  }
+  close(fd);
+  return nullptr;
+}
+static void* downStopper(void* a) { stopDaemon(static_cast<Daemon*>(a)); return nullptr; }
+static int downRace(const string& dir, int rounds) {
+  const int K = 24;
+  vf::Rng rng(vf::seedFromEnv());
+  long total = 0;
+  for (int r = 1; r <= rounds; r++) {
+    Daemon* D = startDaemon(dir, false);
+    g_downStop = 0;
+    DownClient dc[K]; pthread_t th[K];
+    for (int k = 0; k < K; k++) { dc[k] = DownClient{D->port, static_cast<unsigned>(rng.next()), 0}; pthread_create(&th[k], nullptr, downClient, &dc[k]); }
+    usleep(static_cast<useconds_t>(30000 + rng.below(40000)));
+    pthread_t st; pthread_create(&st, nullptr, downStopper, D);
+    struct timespec ts; clock_gettime(CLOCK_REALTIME, &ts); ts.tv_sec += 20;   // generous: the destructor needs ~0.1 s
+    int rc = pthread_timedjoin_np(st, nullptr, &ts);
+    g_downStop = 1;
+    for (int k = 0; k < K; k++) total += dc[k].requests;
+    if (rc != 0) {
+      printf("{\"rounds\":%d,\"requests\":%ld,\"shutdown_hang\":1}\n", r, total);
+      fflush(nullptr);
+      if (getenv("VF_HANG_PAUSE")) { fprintf(stderr, "HANG pid %d\n", getpid()); sleep(static_cast<unsigned>(atoi(getenv("VF_HANG_PAUSE")))); }
+      _exit(0);
+    }
+    for (int k = 0; k < K; k++) pthread_join(th[k], nullptr);
+  }
+  printf("{\"rounds\":%d,\"requests\":%ld,\"shutdown_hang\":0}\n", rounds, total);
+  return 0;
+}
+
 int main(int argc, char** argv) {
   vf::installTerminate();
   signal(SIGPIPE, SIG_IGN);
@@ -585,18 +663,35 @@ int main(int argc, char** argv) {
     stopDaemon(D);
     return 0;
   }
+  if (mode == "downrace") return downRace(dir, atoi(argv[2]));
   if (mode != "run" || argc < 4) return 2;
   int nh = atoi(argv[3]);
-  vector<string> fams;
-  { string fs = argc > 4 ? argv[4] : "plain,plain,plain,pipe,multi,empty,junk,nul,abandon,listen,http"; size_t p; while ((p = fs.find(',')) != string::npos) { fams.push_back(fs.substr(0, p)); fs.erase(0, p + 1); } fams.push_back(fs); }
+  vector<string> fams;   // "fam*count,fam*count,..." (shuffled) or "fam,fam,..." (round robin up to nhist)
+  {
+    string fs = argc > 4 ? argv[4] : "plain,plain,plain,pipe,multi,empty,junk,nul,abandon,listen,http";
+    vector<string> items; size_t p; while ((p = fs.find(',')) != string::npos) { items.push_back(fs.substr(0, p)); fs.erase(0, p + 1); } items.push_back(fs);
+    bool counted = false;
+    for (auto& it : items) { size_t st = it.find('*'); if (st != string::npos) { counted = true; int n = atoi(it.c_str() + st + 1); for (int i = 0; i < n; i++) fams.push_back(it.substr(0, st)); } else fams.push_back(it); }
+    if (counted) { vf::Rng sh(vf::seedFromEnv() + 77); for (size_t i = fams.size(); i > 1; i--) std::swap(fams[i - 1], fams[sh.below(static_cast<unsigned>(i))]); }
+    else { vector<string> rr; for (int i = 0; i < nh; i++) rr.push_back(fams[static_cast<size_t>(i) % fams.size()]); fams = rr; }
+    nh = static_cast<int>(fams.size());
+  }
   vf::Rng rng(vf::seedFromEnv());
   FILE* f = fopen(argv[2], "w");
   if (!f) { perror(argv[2]); return 2; }
   Daemon* D = startDaemon(dir, true);
-  long totalEv = 0; int done = 0;
+  long totalEv = 0; int done = 0, restarts = 0;
   for (int h = 1; h <= nh; h++) {
-    History hist = genHistory(fams[static_cast<size_t>(h - 1) % fams.size()], &rng);
+    // the scripted slave counts in one byte: start a fresh daemon before a counter gets near the end of its range
+    // (this also runs the shutdown path of Network / MainLoop with all connections ended)
+    bool fresh = false;
+    for (auto& kv : D->W->tr->m_count) if (kv.second > 180) fresh = true;
+    if (fresh) { stopDaemon(D); g_now = 1700000000; D = startDaemon(dir, true); restarts++; }
+    History hist = genHistory(fams[static_cast<size_t>(h - 1)], &rng);
+    struct timespec t0, t1; clock_gettime(CLOCK_MONOTONIC, &t0);
     bool ok = runHistory(D, &hist, h, f, &totalEv);
+    clock_gettime(CLOCK_MONOTONIC, &t1);
+    if (getenv("VF_TIMING")) fprintf(stderr, "h%d %s %.3fs\n", h, hist.family.c_str(), (t1.tv_sec - t0.tv_sec) + (t1.tv_nsec - t0.tv_nsec) / 1e9);
     done++;
     if (!ok) {  // a client never got its answer: threads of the daemon may be stuck for ever - stop here
       fclose(f);
@@ -606,6 +701,6 @@ int main(int argc, char** argv) {
   }
   fclose(f);
   stopDaemon(D);
-  printf("{\"histories\":%d,\"events\":%ld,\"hangs\":%d,\"aborted\":0}\n", done, totalEv, g_hangs.load());
+  printf("{\"histories\":%d,\"events\":%ld,\"hangs\":%d,\"aborted\":0,\"restarts\":%d}\n", done, totalEv, g_hangs.load(), restarts);
   return 0;
 }
